@@ -89,3 +89,19 @@ pub fn query_legacy_specific(
 pub fn query_bedrock(address: &SocketAddr, timeout_settings: Option<TimeoutSettings>) -> GDResult<BedrockResponse> {
     Bedrock::query(address, timeout_settings)
 }
+
+/// Verification unit ports (compiled only with `--cfg gamedig_verif`): thin
+/// public wrappers that drive the private units above, nothing else.
+#[cfg(gamedig_verif)]
+pub mod verif_unit {
+    use crate::buffer::Buffer;
+    use crate::GDResult;
+    use byteorder::BigEndian;
+
+    /// `LegacyV1_6::is_protocol` on a kick-packet body: (marker found, position afterwards).
+    pub fn legacy_v1_6_is_protocol(data: &[u8]) -> GDResult<(bool, usize)> {
+        let mut buffer = Buffer::<BigEndian>::new(data);
+        let found = super::legacy_v1_6::LegacyV1_6::is_protocol(&mut buffer)?;
+        Ok((found, buffer.current_position()))
+    }
+}
